@@ -1,2 +1,65 @@
-(* C07 — property theorems (in progress). *)
-From S3V Require Import lib.Bytes model.Service.
+(* C07 — property theorems only, about the composed model Service.call (all parameters arbitrary: hash, MAC,
+   calendar, route table, deserialization oracle, configuration, clock, request). *)
+From S3V Require Import lib.Bytes model.Service proofs.ServiceProofs.
+Open Scope N_scope.
+
+(* with a provider configured, a backend method or the custom route runs only (a) under the identity whose signature
+   the signature stage accepted, or (b) for a request that presented no signature, anonymously, and only when a
+   custom access hook (allow / deny-other-operation / deny-other-typed-hook) approved it - never under the default
+   "refuse anonymous" control *)
+Theorem C07_gate : forall H mac epoch_of routes deser cfg now r p v pd evs out e f,
+  cf_auth cfg = Some f -> pre cfg r = inr p -> signature_stage H mac epoch_of cfg now r p = (v, pd) ->
+  call H mac epoch_of routes deser cfg now r = (evs, out) -> In e evs -> is_run e = true ->
+  (exists ak rg sv sd, v = Some (Accept ak rg sv sd) /\ ev_cred e = Some (Some ak)) \/
+  (cred_of v = None /\ ev_cred e = Some None /\ exists op, e = EBackend (snake op) None (region_of v) (service_of v) /\
+     (cf_access cfg = AAllow \/ (exists o, cf_access cfg = ADenyOp o) \/ (exists o, cf_access cfg = ADenyTyped o))).
+Proof. exact run_needs_identity_or_approval. Qed.
+Check C07_gate : forall H mac epoch_of routes deser cfg now r p v pd evs out e f,
+  cf_auth cfg = Some f -> pre cfg r = inr p -> signature_stage H mac epoch_of cfg now r p = (v, pd) ->
+  call H mac epoch_of routes deser cfg now r = (evs, out) -> In e evs -> is_run e = true ->
+  (exists ak rg sv sd, v = Some (Accept ak rg sv sd) /\ ev_cred e = Some (Some ak)) \/
+  (cred_of v = None /\ ev_cred e = Some None /\ exists op, e = EBackend (snake op) None (region_of v) (service_of v) /\
+     (cf_access cfg = AAllow \/ (exists o, cf_access cfg = ADenyOp o) \/ (exists o, cf_access cfg = ADenyTyped o))).
+Print Assumptions C07_gate.
+
+(* the identity shown to every hook, the route and the backend is exactly the accepted signer's (None if anonymous) *)
+Theorem C07_identity_exact : forall H mac epoch_of routes deser cfg now r p v pd evs out e c,
+  pre cfg r = inr p -> signature_stage H mac epoch_of cfg now r p = (v, pd) ->
+  call H mac epoch_of routes deser cfg now r = (evs, out) -> In e evs -> ev_cred e = Some c -> c = cred_of v.
+Proof. exact identity_exact. Qed.
+Print Assumptions C07_identity_exact.
+
+(* order: route match < route access < route call < access hook < typed hook < backend, each at most once *)
+Theorem C07_order : forall H mac epoch_of routes deser cfg now r evs out,
+  call H mac epoch_of routes deser cfg now r = (evs, out) -> exists cred, shape cred evs.
+Proof. exact call_shape. Qed.
+Print Assumptions C07_order.
+
+(* denials stop processing *)
+Theorem C07_reject_stops : forall H mac epoch_of routes deser cfg now r p code pd,
+  pre cfg r = inr p -> signature_stage H mac epoch_of cfg now r p = (Some (Reject code), pd) ->
+  call H mac epoch_of routes deser cfg now r = ([], OError code).
+Proof. exact reject_stops. Qed.
+Print Assumptions C07_reject_stops.
+
+Theorem C07_backend_after_approval : forall routes deser cfg r p cred region service pd rev evs out e,
+  op_part routes deser cfg r p cred region service pd rev = (evs, out) -> In e evs -> ~ In e rev -> is_run e = true ->
+  exists op, snd (access_events cfg cred op) = None /\ snd (typed_events cfg cred op) = None /\ e = EBackend (snake op) cred region service.
+Proof. exact op_part_backend_approved. Qed.
+Print Assumptions C07_backend_after_approval.
+
+Theorem C07_deny_refuses : forall cfg f cred op, cf_auth cfg = Some f -> cf_access cfg = ADeny -> snd (access_events cfg cred op) <> None.
+Proof. exact deny_refuses. Qed.
+Print Assumptions C07_deny_refuses.
+Theorem C07_default_refuses_anonymous : forall cfg f op, cf_auth cfg = Some f -> (cf_access cfg = ANone \/ cf_access cfg = ADefault) ->
+  snd (access_events cfg None op) <> None.
+Proof. exact default_refuses_anonymous. Qed.
+Print Assumptions C07_default_refuses_anonymous.
+
+(* without a provider, whatever presents a signature (V2/V4 query or header, repeated or malformed Authorization,
+   POST form) is refused with an error and no event *)
+Theorem C07_no_provider_refuses : forall H mac epoch_of routes deser cfg now r p v pd,
+  cf_auth cfg = None -> pre cfg r = inr p -> signature_stage H mac epoch_of cfg now r p = (Some v, pd) ->
+  exists c, call H mac epoch_of routes deser cfg now r = ([], OError c).
+Proof. exact no_provider_refuses. Qed.
+Print Assumptions C07_no_provider_refuses.
